@@ -82,7 +82,18 @@ def gen_bank(rng):
               'how': rng.choice(['subs', 'movs', 'eret', 'ldm']), 'ns': rng.getrandbits(1)}
         ops.append(op)
     core = {'config': cfg, 'devices': devices, 'regs': regs, 'words': [], 'force': None, 'no_poke': []}
-    return {'scenario': 'bank_walk', 'cores': [core], 'ops': ops, 'thumb': thumb, 'events': [], 'max_ticks': 10 ** 9, 'stop_at_done': False}
+    case = {'scenario': 'bank_walk', 'cores': [core], 'ops': ops, 'thumb': thumb, 'events': [], 'max_ticks': 10 ** 9, 'stop_at_done': False}
+    if rng.random() < 0.35:
+        # a PREDECESSOR instance: another processor, built from another configuration (other extensions), is created, has every bank of every mode
+        # number read and the legal ones written through the API, and is dropped before the instance under test is even constructed.  Which
+        # register a (number, mode) pair names depends on the configuration, so nothing about it may outlive the instance that asked
+        psec = rng.random() < 0.6
+        pvirt = psec and rng.random() < 0.5
+        if (psec, pvirt) == (sec, virt):
+            psec, pvirt = (not sec, False) if rng.random() < 0.5 else (True, not virt)
+        case['predecessor'] = {'config': dict(cfg, have_security_ext=psec, have_virt_ext=pvirt, memory_system_architecture='VMSA' if pvirt else 'PMSA'),
+                               'seed': rng.getrandbits(32)}
+    return case
 
 
 def gen(item, rng, tier):
@@ -113,7 +124,39 @@ def gen(item, rng, tier):
             for i in range(len(core['words'])):
                 if rng.random() < 0.35:
                     core['words'][i] = _wrap_word(rng, thumb, rn_, rm_)
+    elif rng.random() < 0.4:
+        # three-input adders at their exact boundaries: every register holds one of two values a, b (reloaded before every tick, alternating by
+        # register number and position) with a + b one of 2^32 - 1, 2^32, 2^32 - 2 or a one of b, b + 1, b - 1, and half of the words are
+        # ADC / SBC / RSC / ADD / SUB / RSB between them - into ordinary registers, the SP and the PC (with S: the exception-return forms).
+        # The carry flag comes from the stream.  A result that is reduced modulo 2^32 BEFORE the carry goes in ends up at 2^32 or -1
+        a = rng.choice([0, 1, 0xFFFFFFFF, 0x7FFFFFFF, 0x80000000, 0xFFFFFF00, 0x100, rng.getrandbits(32)])
+        b = rng.choice([0xFFFFFFFF - a, (0x100000000 - a) & 0xFFFFFFFF, (0xFFFFFFFE - a) & 0xFFFFFFFF, a, (a + 1) & 0xFFFFFFFF, (a - 1) & 0xFFFFFFFF])
+        thumb = (core['regs']['cpsr'] >> 5) & 1
+        core['force'] = {'thumb': thumb, 'it': 0, 'ptr_regs': [a, b]}
+        for i in range(len(core['words'])):
+            if rng.random() < 0.5:
+                core['words'][i] = _carry_word(rng, thumb)
     return case
+
+
+def _carry_word(rng, thumb):
+    rn, rm = rng.randrange(13), rng.randrange(13)
+    if rng.random() < 0.7 and (rn ^ rm) & 1 == 0:
+        rm ^= 1                                   # other parity: the two registers hold the two different values
+    if thumb:
+        k = rng.random()
+        if k < 0.2:
+            return G._t16(rng.choice([0x4140, 0x4180]) | (rm & 7) << 3 | (rn & 7))                    # ADCS / SBCS Rdn, Rm
+        op = rng.choice([0b1000, 0b1010, 0b1011, 0b1101, 0b1110])                                      # ADD ADC SBC SUB RSB (.W, register)
+        if k < 0.35:
+            return 0xF0000000 | op << 21 | rng.getrandbits(1) << 20 | rn << 16 | rng.randrange(13) << 8 | rng.choice([0, 1, 0xFF])   # modified immediate
+        return 0xEA000000 | op << 21 | rng.getrandbits(1) << 20 | rn << 16 | rng.randrange(13) << 8 | min(rm, 12)
+    op = rng.choice(['adc', 'sbc', 'rsc', 'adc', 'sbc', 'rsc', 'add', 'sub', 'rsb'])
+    rd = rng.choice([15, 15, 15, 13] + list(range(13)))
+    sbit = 1 if rd == 15 and rng.random() < 0.8 else rng.getrandbits(1)
+    if rng.random() < 0.3:
+        return A.dp_imm(op, rd, rn, rng.choice([0, 1, 0xFF]), s=sbit, rot=rng.choice([0, 0, 4, 12]))
+    return A.dp_reg(op, rd, rn, rm, s=sbit)
 
 
 def _wrap_word(rng, thumb, rn, rm):
@@ -135,8 +178,33 @@ def _wrap_word(rng, thumb, rn, rm):
 VALID_PSR_MASK = 0xF80F01C0
 
 
+def run_predecessor(pre):
+    """the life of the predecessor instance (see gen_bank): a 'dump all banks' of all 32 mode numbers, writes in the modes legal for ITS configuration"""
+    arm = M.new_arm({'config': pre['config'], 'devices': [], 'regs': {}})
+    r = arm.registers
+    cfg = M.full_config(pre['config'])
+    legal = set(BK.legal_modes(cfg['have_security_ext'], cfg['have_virt_ext']))
+    rng = random.Random(pre['seed'])
+    for mode in [0x10, 0x11, 0x12, 0x13, 0x16, 0x17, 0x1a, 0x1b, 0x1f] + [rng.randrange(32) for _ in range(4)]:
+        for n in range(15):
+            try:
+                r.get_rmode(n, mode)                       # reading is harmless even for a mode this configuration lacks (at worst UNKNOWN data)
+                if mode in legal and (mode != 0x16 or not r.scr.value & 1):
+                    r.set_rmode(n, mode, rng.getrandbits(32))
+            except Exception:
+                pass                                       # (a host error here is C18's subject and is found there)
+    for mode in legal:
+        r.cpsr.value = (r.cpsr.value & ~0x1F) | mode
+        for n in range(15):
+            r.set(n, r.get(n) ^ 0xFFFF)
+        if mode not in (0x10, 0x1f):
+            r.set_spsr(r.get_spsr())
+
+
 class Walk:
     def __init__(self, case):
+        if case.get('predecessor'):
+            run_predecessor(case['predecessor'])
         self.case = dict(case, cores=[dict(case['cores'][0], words=[])])
         self.b = StreamBoard(self.case, [])
         self.arm = self.b.cores[0].arm
